@@ -551,11 +551,12 @@ def all_paths(pid, items):
 
 
 def check_c06(tier, t0):
-    progs = pick(all_progs(["functions", "pressure"]) + names_family()[:3], tier, 16)
+    progs = pick(all_progs(["functions", "pressure"]) + names_family(twice=True)[:3], tier, 16)
     vecs = [cw.REF, cw.opts(use_push_pop_functions=True), cw.opts(tail_call_optimization=True),
-            cw.opts(use_push_pop_functions=True, tail_call_optimization=True)]
+            cw.opts(use_push_pop_functions=True, tail_call_optimization=True),
+            cw.opts(inline_functions=True, tail_call_optimization=True), cw.opts(inline_functions=True)]
     if tier == "thorough":
-        vecs += [dict(v, compact=True) for v in vecs[1:]]
+        vecs += [dict(v, compact=True) for v in vecs[1:]] + [cw.opts(inline_functions=True, tail_call_optimization=True, use_push_pop_functions=True)]
     mat = compile_matrix(progs, vecs)
     items = []
     ncalls = 0
